@@ -2,16 +2,34 @@
    Statements only; proofs in Proofs/EditProofs.v.  The model of construction is
    [Wire.HeaderEdit.build] followed by the specification encoder; the
    DBusTypeWriter is tied to it byte-for-byte by the correspondence run. *)
-From DV Require Import Lib.Base Spec.Codec Wire.HeaderEdit Proofs.EditProofs Proofs.CodecWf Proofs.CodecRoundtrip.
+From DV Require Import Lib.Base Spec.Codec Wire.HeaderEdit Proofs.EditProofs Proofs.CodecWf Proofs.CodecRoundtrip Proofs.CodecMessage.
 Local Open Scope N_scope.
 
-(* Full statement: the encoder/decoder round trip, not yet a theorem (decided
-   today on every generated program by evaluating the extracted
-   [spec_decode_message] on the bytes the implementation produced). *)
-Definition C02_full_statement : Prop :=
-  forall le t f s es body, let m := build le t f s es body in
-    fields_ok [] (s_fields m) = true -> mandatory_ok t (s_fields m) = true -> t <> 0 -> s <> 0 ->
-    exists n, spec_decode_message (spec_encode_message m) = Some (m, n).
+(* THE ROUND TRIP, message level: the specification decoder applied to the
+   canonical serialisation of any well-formed abstract message (either byte
+   order; any field order incl. unknown fields; any body of nested values)
+   returns exactly that message and its exact length.  [wf_msg] is a decidable
+   predicate: type/flags/serial in range, header fields valid per the
+   specification's table and mandatory for the type, SIGNATURE field = signature
+   of the body, every value well-formed ([wfb]), sizes within 2^26 / 2^27.
+   Its two signature premises (a variant's contained type and the body
+   signature print and parse back to themselves) hold for every valid type but
+   are checked per message rather than proved once and for all. *)
+Theorem C02_roundtrip : forall m, wf_msg m = true ->
+  spec_decode_message (spec_encode_message m) = Some (m, nlen (spec_encode_message m)).
+Proof. exact message_roundtrip. Qed.
+Print Assumptions C02_roundtrip.
+
+(* built messages, and their conversion to the other byte order *)
+Corollary C02_built_roundtrip : forall le t f s es body,
+  let m := build le t f s es body in wf_msg m = true ->
+  spec_decode_message (spec_encode_message m) = Some (m, nlen (spec_encode_message m)).
+Proof. intros. apply message_roundtrip. assumption. Qed.
+
+Corollary C02_byteswap_roundtrip : forall m, wf_msg (swap_order m) = true ->
+  exists n, spec_decode_message (spec_encode_message (swap_order m)) = Some (swap_order m, n) /\
+            s_fields (swap_order m) = s_fields m /\ s_body (swap_order m) = s_body m.
+Proof. intros m H. eexists. split; [apply message_roundtrip; exact H | split; reflexivity]. Qed.
 
 Theorem C02_body_and_signature : forall le t f s es body,
   s_body (build le t f s es body) = body /\ s_sig (build le t f s es body) = sig_of_vals body.
@@ -70,6 +88,8 @@ Example ex_val_wf_be : wfb false 0 3 ex_val = true. Proof. vm_compute. reflexivi
 Definition ex_built : smsg :=
   build true 4 0 7 [ESet 1 (VStr 111 [47;97]); ESet 2 (VStr 115 [97;46;98]); ESet 3 (VStr 115 [83])]
         [VNum 121 5; VStr 115 [104;105]; VArr (TBasic 105) [VNum 105 1; VNum 105 2]; VVar (TBasic 115) (VStr 115 [97])].
+Example ex_built_wf : wf_msg ex_built = true. Proof. vm_compute. reflexivity. Qed.
+Example ex_built_wf_be : wf_msg (swap_order ex_built) = true. Proof. vm_compute. reflexivity. Qed.
 Example ex_roundtrip : match spec_decode_message (spec_encode_message ex_built) with
                        | Some (m, _) => s_body m = s_body ex_built /\ map sf_code (s_fields m) = [1; 2; 3; 8]
                        | None => False end.
